@@ -75,6 +75,14 @@ CLAIMED = {
                      "under their version guards. The option x leading-bytes decision table needs evaluation on data: not decided.",
                 note=TB,
                 tech="constant-table agreement + guard-edge dominance on the CFG"),
+    "C12": dict(level="other", ref="5 C12",
+                text="Agreement of three finite tables (codes that can reach the callback incl. case labels guarding variable codes; the "
+                     "parser's documented recovery table read from parser.c; the 26 defect classes of the property) plus, per documented "
+                     "row, a CFG check that accepting the error consumes the offending token ('drop/ignore' rows) or leaves it "
+                     "('assume the missing ...' rows). Reported positions and exact recovered content are not decided; C03 R1/R2 "
+                     "(verdict propagation, routing) are prerequisites checked under C03.",
+                note=TB + "; the recovery table in parser.c's documentation comment is the oracle for actions",
+                tech="table agreement + must/may token-consumption queries on CFGs"),
     "C13": dict(level="other", ref="5 C13",
                 text="In CIF 1.1 mode every CIF-supplied string reaching the output stream has passed cif_validate_cif11_characters "
                      "with CIF_OK on every path (who-may-emit closure over text-forwarding writers + per-variable must-validate "
